@@ -392,7 +392,7 @@ func first(s string) string {
 }
 
 var prop = &hx.Prop{
-	ID: "C19", Gen: gen, Decode: decode, Exec: exec, Shrink: shrink,
+	ID: "C19", Gen: gen, Decode: decode, Focus: focus, Exec: exec, Shrink: shrink,
 	Components: map[string]string{
 		"parser (generic class syntax), node.ClassGeneric / NewClassGenerated / typed property store / parameter checks, spawn": "real (instrumented copy of /repo)",
 		"coroutine scheduling (concurrent mode)": "simulated (seeded scheduler, statement-granular preemption)",
